@@ -9,3 +9,4 @@ print("setup ok: z3", z3.get_version_string(), "-", len(registry.CONTRACTS), "co
 
 from checks import static
 print("lean lemmas:", static.lean_lemmas("/repo/src"))
+print("lean affine:", static.lean_affine("/repo/src"))
